@@ -12,6 +12,8 @@ Keys are lower-case hex, the empty key is `-`; a pair is `<hexkey>:<value>`.
   navpos <pos>                (hasChild, childNodeID | valuePos, isEndOfNode, suffix of a label)
   get <key> | lget <key> | iter | liter | riter | seek <key> | seeklb <key> | prefix <key>
   siter | sriter | sseek <key> | sprefix <key>     (the iterator stack machine over the vectors)
+  swalk <first|last|seek:<key>> <script of N / P, or ->   (cursor walk: Valid/Key/Value at the start and
+                                                            after every Next / Prev of the script)
   bv <bits> ...               bvbits | bvranklut | bvsellut | rank <i> | select <k> | dist <i>
   bucket <blockSize> | <pair> ... | <pair> ...
   reload | bytes | msize      (byte layout model: marshal / unmarshal round trip, the bytes, MarshalSize)
@@ -226,6 +228,23 @@ def step (st : St) (ws : List String) : St × String :=
         match r.2 with
         | [] => s!"fp={if r.1 then 1 else 0} invalid"
         | l => s!"fp={if r.1 then 1 else 0} " ++ showPairs l)
+  | ["swalk", start, script] =>
+    let ms? : Option (List LoudsIter.Mv) :=
+      if script = "-" then some [] else
+      script.toList.mapM (fun c => if c = 'N' then some LoudsIter.Mv.next else if c = 'P' then some LoudsIter.Mv.prev else none)
+    let start? : Option (Flat → LoudsIter.It) :=
+      if start = "first" then some LoudsIter.seekToFirst
+      else if start = "last" then some LoudsIter.seekToLast
+      else match start.splitOn ":" with
+        | ["seek", k] => (parseKey k).map (fun key => fun f => (LoudsIter.seek stepLB f key).1)
+        | _ => none
+    match ms?, start? with
+    | some ms, some mk =>
+      withFlat st (fun f =>
+        let it := mk f
+        let showObs : Option KV → String := fun o => match o with | some kv => showPair kv | none => "x"
+        " ".intercalate ((LoudsIter.obs f it :: LoudsIter.walk f it ms).map showObs))
+    | _, _ => (st, "bad-op")
   | ["sprefix", k] =>
     match parseKey k with
     | none => (st, "bad-op")
